@@ -77,6 +77,21 @@ Theorem C06_string_comparisons : forall l r,
   bool_of (strings_op o_eq l r) = Some (beq l r) /\
   bool_of (strings_op o_ne l r) = Some (negb (beq l r)).
 Proof. exact strings_compare. Qed.
+(* NaN (the float that differs from itself: Inf - Inf, or a NaN held by a variable): every
+   ordered comparison with it is false, == is false and != is true, on either side.  For all
+   binary64 operands; rests on the standard library's FloatAxioms (eqb_spec, ltb_spec, leb_spec). *)
+Theorem C06_nan_comparisons : forall x y, is_nan_f x = true ->
+  floats_op o_lt x y = OpV (VBool false) /\ floats_op o_lt y x = OpV (VBool false) /\
+  floats_op o_le x y = OpV (VBool false) /\ floats_op o_le y x = OpV (VBool false) /\
+  floats_op o_gt x y = OpV (VBool false) /\ floats_op o_gt y x = OpV (VBool false) /\
+  floats_op o_ge x y = OpV (VBool false) /\ floats_op o_ge y x = OpV (VBool false) /\
+  floats_op o_eq x y = OpV (VBool false) /\ floats_op o_eq y x = OpV (VBool false) /\
+  floats_op o_ne x y = OpV (VBool true) /\ floats_op o_ne y x = OpV (VBool true).
+Proof. exact nan_comparisons. Qed.
+Print Assumptions C06_nan_comparisons.
+Example C06_inf_minus_inf_is_nan : is_nan_f (PrimFloat.sub infinity infinity) = true.
+Proof. reflexivity. Qed.
+
 Theorem C06_float_division_by_zero : forall a, floats_op o_div a 0%float = OpErr.
 Proof. exact floats_div_zero. Qed.
 Print Assumptions C06_string_comparisons.
